@@ -197,7 +197,7 @@ def vhdx(L, rnd):
     for _ in range(L.get('rpad', 0)):
         ents.append(guid_bytes(BAT_REGION) + struct.pack('<QII', 3 << 20, 1 << 20, 1))
     if L.get('rmeta', True):
-        ents.append(guid_bytes(METAREGION) + struct.pack('<QII', meta_off, 1 << 20, 1))
+        ents.append(guid_bytes(METAREGION) + struct.pack('<QII', meta_off, tok(L.get('meta_len', '1048576')) & 0xffffffff, 1))
     for _ in range(L.get('rpost', 0)):
         ents.append(guid_bytes(BAT_REGION) + struct.pack('<QII', 3 << 20, 1 << 20, 1))
     rcount = L.get('rcount')
@@ -333,6 +333,10 @@ def vmdk(L, rnd):
     else:
         want = total if total is not None else len(body) + 2048
         out = pad_to(body, want, rnd, None)[:want]
+    if L.get('fill') == 'text' and len(out) > 512:
+        # no NUL anywhere after the sparse header (up to the footer structures): padding and data area are text
+        end = len(out) - 1536 if footer is not None else len(out)
+        out = out[:512] + out[512:end].replace(b'\0', b'x') + out[end:]
     return out, sorted(b for b in set(bounds) if 0 < b < len(out))
 
 
